@@ -255,3 +255,83 @@ Proof.
   intros s op mn md W Hop Hdec. unfold Spec816.step.
   rewrite (spec_fetch0 s (wf_RK s W) (wf_PC s W)), Hop, Hdec. reflexivity.
 Qed.
+
+(* ---------------------------------------------------------------- accesses along a routine: accumulated form *)
+Record acc_facts (gm : Z) (s1 : st) (l : loc) : Prop := mkaf {
+  af_mm : memmode gm = true;
+  af_md : get f_StepInfo_Mode s1 = gm;
+  af_b : 0 <= get f_RDBR s1 < 256;
+  af_a : 0 <= get f_StepInfo_Addr s1 < 65536;
+  af_e : 0 <= get f_StepInfo_EA s1 < 16777216;
+  af_loc : go_loc gm s1 = l }.
+
+Definition acc_field (f : N) : bool :=
+  negb (existsb (N.eqb f) [f_StepInfo_Mode; f_RDBR; f_StepInfo_Addr; f_StepInfo_EA]).
+
+Lemma acc_facts_regs : forall gm s1 s2 l, acc_facts gm s1 l -> regs_same s1 s2 -> acc_facts gm s2 l.
+Proof.
+  intros gm s1 s2 l [A B C D E F] R. constructor; unfold go_loc in *; rewrite ?R; assumption.
+Qed.
+Lemma acc_facts_set : forall gm s1 l f v, acc_field f = true -> acc_facts gm s1 l -> acc_facts gm (set f v s1) l.
+Proof.
+  intros gm s1 l f v Hf [A B C D E F].
+  unfold acc_field in Hf. apply negb_true_iff in Hf. cbn [existsb] in Hf.
+  apply orb_false_elim in Hf. destruct Hf as [H1 Hf]. apply orb_false_elim in Hf. destruct Hf as [H2 Hf].
+  apply orb_false_elim in Hf. destruct Hf as [H3 Hf]. apply orb_false_elim in Hf. destruct Hf as [H4 _].
+  assert (G : forall g, existsb (N.eqb g) [f_StepInfo_Mode; f_RDBR; f_StepInfo_Addr; f_StepInfo_EA] = true ->
+                        get g (set f v s1) = get g s1).
+  { intros g Hg. cbn [existsb] in Hg. apply get_set_other.
+    repeat (apply orb_prop in Hg; destruct Hg as [Hg | Hg]; [ apply N.eqb_eq in Hg; subst g; rewrite N.eqb_sym; assumption | ]).
+    discriminate Hg. }
+  constructor; unfold go_loc in *; rewrite ?(G f_StepInfo_Mode eq_refl), ?(G f_RDBR eq_refl), ?(G f_StepInfo_Addr eq_refl),
+    ?(G f_StepInfo_EA eq_refl); assumption.
+Qed.
+
+Lemma apply_writes_app : forall ws1 ws2 m, apply_writes (ws1 ++ ws2) m = apply_writes ws2 (apply_writes ws1 m).
+Proof. induction ws1 as [| [a v] r IH]; intros ws2 m; cbn [app apply_writes]; [reflexivity | apply IH]. Qed.
+Lemma apply_writes_ext : forall ws m1 m2, (forall a, m1 a = m2 a) -> forall a, apply_writes ws m1 a = apply_writes ws m2 a.
+Proof.
+  induction ws as [| [b v] r IH]; intros m1 m2 H a; cbn [apply_writes]; [apply H |].
+  apply IH. intro c. destruct (c =? b); [reflexivity | apply H].
+Qed.
+
+Lemma acc_read8 : forall gm sc l (M : Spec816.mem), acc_facts gm sc l -> (forall a, mem sc a = M a) ->
+  exists s2, cmdRead sc = Ok (rd8 M l) s2 /\ regs_same sc s2 /\ (forall a, mem s2 a = M a).
+Proof.
+  intros gm sc l M [A B C D E F] Hm.
+  destruct (cmdRead_mem gm sc A B C D E) as (s2 & Hr & Hregs & Hmem).
+  exists s2. rewrite Hr, F, (rd8_ext _ _ l Hm). repeat split; [ exact Hregs | intro a; rewrite Hmem; apply Hm ].
+Qed.
+Lemma acc_read16 : forall gm sc l (M : Spec816.mem), acc_facts gm sc l -> (forall a, mem sc a = M a) ->
+  exists s2, cmdRead16 sc = Ok (rd16 M l) s2 /\ regs_same sc s2 /\ (forall a, mem s2 a = M a).
+Proof.
+  intros gm sc l M [A B C D E F] Hm.
+  destruct (cmdRead16_mem gm sc A B C D E) as (s2 & Hr & Hregs & Hmem).
+  exists s2. rewrite Hr, F, (rd16_ext _ _ l Hm). repeat split; [ exact Hregs | intro a; rewrite Hmem; apply Hm ].
+Qed.
+Lemma acc_write8 : forall gm sc l (M : Spec816.mem) v, acc_facts gm sc l -> (forall a, mem sc a = M a) -> 0 <= v < 256 ->
+  exists s2, cmdWrite v sc = Ok tt s2 /\ regs_same sc s2 /\ (forall a, mem s2 a = apply_writes (wrw W8 l v) M a).
+Proof.
+  intros gm sc l M v [A B C D E F] Hm Hv.
+  destruct (cmdWrite_mem gm sc v A B Hv C D E) as (s2 & Hr & Hregs & Hmem).
+  exists s2. rewrite Hr. repeat split; [ exact Hregs | intro a; rewrite Hmem, F; apply apply_writes_ext; exact Hm ].
+Qed.
+Lemma acc_write16 : forall gm sc l (M : Spec816.mem) v, acc_facts gm sc l -> (forall a, mem sc a = M a) -> 0 <= v < 65536 ->
+  exists s2, cmdWrite16 v sc = Ok tt s2 /\ regs_same sc s2 /\ (forall a, mem s2 a = apply_writes (wrw W16 l v) M a).
+Proof.
+  intros gm sc l M v [A B C D E F] Hm Hv.
+  destruct (cmdWrite16_mem gm sc v A B Hv C D E) as (s2 & Hr & Hregs & Hmem).
+  exists s2. rewrite Hr. repeat split; [ exact Hregs | intro a; rewrite Hmem, F; apply apply_writes_ext; exact Hm ].
+Qed.
+
+Lemma rmw_mem : forall w l m f s, l <> LAcc ->
+  rmw w l m f s = (let (r, s1) := f (rdw w m l) s in (s1, wrw w l r)).
+Proof. intros w l m f s H. destruct l; [ contradiction | reflexivity | reflexivity ]. Qed.
+
+Lemma not_immM : forall gm, memmode gm = true -> forall (A : Type) (a b : A),
+  match gm_md gm with ImmM => a | _ => b end = b.
+Proof. intros gm H A a b. mode_cases H; subst gm; reflexivity. Qed.
+Lemma memmode_not6 : forall gm, memmode gm = true -> w_eqb gm 6 = false.
+Proof. intros gm H. mode_cases H; subst gm; reflexivity. Qed.
+Lemma memmode_not4 : forall gm, memmode gm = true -> w_eqb gm 4 = false.
+Proof. intros gm H. mode_cases H; subst gm; reflexivity. Qed.
